@@ -132,7 +132,12 @@ def run(R):
     nf_all = [n for n in sh.cfg.nodes if n.kind == 'stmt' and isinstance(n.ast, ast.Assign) and ast.unparse(n.ast.targets[0]) == 'need_fetch']
     inst = sh.qual + ' :: need_fetch'
     probs = []
-    if not nf_true:
+    no_flag = not nf_all and not any(isinstance(x, ast.Name) and x.id == 'need_fetch' for x in ast.walk(sh.f.node))
+    if no_flag:
+        R.defer('sync_handler: "some entry was raised" is not kept in a flag named `need_fetch` (restructured; C18.MPT.2 cannot be read)')
+    if no_flag:
+        pass
+    elif not nf_true:
         probs.append(('need_fetch is never set', sh.f.node))
     for n in nf_true:
         if n.id in sh.cfg.reachable(removed_edges=set(raise_edges)):
@@ -164,7 +169,9 @@ def run(R):
                 probs.append(('the handler can return after merging without reaching the missing-data notification', nft[0].ast))
         if not (cc.args and ast.unparse(cc.args[0]) == 'self'):
             probs.append(('on_missing_data is not called with the instance', cc))
-    if probs:
+    if no_flag:
+        pass
+    elif probs:
         for (what, construct) in probs:
             R.fail('C18.MPT.2', inst, sh.qual, construct if not isinstance(construct, ast.FunctionDef) else 'def sync_handler', what, site(sh, construct))
     else:
